@@ -101,6 +101,13 @@ class Victim:
             ck.count('bystander.served')
 
 
+def acceptable_init_request(rng, src):
+    """An IKE_SA_INIT request the hub ACCEPTS (its own suite, a valid public value): every copy with a fresh SPI leaves a half-open IKE_SA behind."""
+    from vf.ref import party
+    trs = [{'type': 1, 'id': 12, 'keylen': 256}, {'type': 3, 'id': 12, 'keylen': None}, {'type': 2, 'id': 5, 'keylen': None}, {'type': 4, 'id': 19, 'keylen': None}]
+    return party.RefParty(src, HUB, rng).init_request(trs, 19)
+
+
 def authentic_from(sa_at_peer, hdr_over, inner_raw, inner_first, rng, **kw):
     """A protected message as the holder of `sa_at_peer` (an IkeSa at the peer endpoint) would send it to the hub."""
     keys = observe.crypto_keys(sa_at_peer.my_crypto)
@@ -217,6 +224,9 @@ def run(ck):
             for t in gen.truncations(init, step=5):
                 corpus.append(('truncation', t))
             corpus += oddities(rng, hub.ctl.ike_sas)
+            # a small flood of perfectly well-formed IKE_SA_INIT requests with fresh SPIs (more than the cookie threshold): half-open IKE_SAs pile up
+            for _ in range(14):
+                corpus.append(('wellformed-ike-sa-init-flood', acceptable_init_request(rng, P2A)))
             if held_auth is not None:
                 # corrupted copies of the authentic IKE_AUTH request that is in flight: they carry the SPIs of the handshake in progress
                 for _ in range(24):
@@ -477,6 +487,72 @@ def run(ck):
             ck.violation(f'timer-driven-service-dead:after-an-authentic-response-with-odd-spi-size:{where}', {'table': [(x.state.name, str(x.peer_addr)) for x in hub.ctl.ike_sas]}, sim.case)
         else:
             ck.count('authentic_response.timer_service_alive')
+    # ---- a flood of well-formed IKE_SA_INIT requests from a configured address arrives BETWEEN two steps of a legitimate handshake (the hub as responder
+    # and as initiator): the handshake that was already under way completes
+    for fi, (role, nflood) in enumerate([('hub-responds', 12), ('hub-responds', 30), ('hub-initiates', 12), ('hub-initiates', 30), ('hub-responds', 11), ('hub-initiates', 60)]):
+        n += 1
+        if not ck.mine(n):
+            continue
+        sim, hub, (p1, p2) = S.make_star(base + 88 + fi, peers=2)
+        sim.case = {'flood_between_two_steps_of_a_handshake': role, 'requests': nflood}
+        died = []
+        sim.monitors.append(lambda s_, ep, rec: died.append(rec) if (rec.died and ep is hub) else None)
+        rngf = ck.rng('flood', n)
+        if role == 'hub-responds':
+            sim.acquire(p2, 0, sport=6850)
+            sim.deliver(0)
+            sim.deliver(0)          # P2's IKE_AUTH request is in flight
+        else:
+            sim.acquire(hub, 1, dport=6860)
+            sim.deliver(0)          # P2's IKE_SA_INIT response is in flight
+        held = list(sim.net)
+        sim.net.clear()
+        for _ in range(nflood):
+            hub.step('udp', udp=(P1A, HUB, acceptable_init_request(rngf, P1A)))
+            sim.net.clear()
+        ck.count('flood_between.half_open_after_the_flood', sum(1 for x in hub.ctl.ike_sas if x.state.value < 10))
+        for d in held:
+            sim.net.append(d)
+        sim.drain()
+        ok = any(x.state == State.ESTABLISHED and x.child_sas for x in p2.ctl.ike_sas) and \
+            any(x.state == State.ESTABLISHED and x.child_sas and str(x.peer_addr) == P2A for x in hub.ctl.ike_sas)
+        ck.count('flood_between.runs')
+        ck.nontrivial(('flood-between', role, nflood))
+        if died:
+            ck.violation(f'loop-terminated:{type(died[0].exc).__name__}:ike-sa-init-flood', {'exc': repr(died[0].exc)[:160]}, sim.case)
+        elif not ok:
+            ck.violation(f'legitimate-handshake-under-way-destroyed-by-a-flood-of-ike-sa-init-requests:{role}',
+                         {'p2': [x.state.name for x in p2.ctl.ike_sas], 'hub': [(x.state.name, str(x.peer_addr)) for x in hub.ctl.ike_sas][:6], 'table_size': len(hub.ctl.ike_sas)}, sim.case)
+        else:
+            ck.count('flood_between.completed')
+    # ---- the network is never quiet: EVERY loop turn is woken by a harmless datagram (an INFORMATIONAL for an unknown SPI, nothing raises) while a lost
+    # request of the hub waits for its retransmission timer
+    for gap in (0.3, 0.7, 0.95):
+        n += 1
+        if not ck.mine(n):
+            continue
+        sim, hub, (p1, p2) = S.make_star(base + 66, peers=2)
+        sim.case = {'never_quiet_network': True, 'seconds_between_datagrams': gap}
+        died = []
+        sim.monitors.append(lambda s_, ep, rec: died.append(rec) if (rec.died and ep is hub) else None)
+        sim.acquire(hub, 1, dport=6750)
+        first = [d.data for d in sim.net if d.dst == P2A]
+        sim.net.clear()
+        noise = bytes(8) + b'\x22' * 8 + bytes([46, 0x20, 37, 0x08]) + (9).to_bytes(4, 'big') + (28).to_bytes(4, 'big')
+        got, t0 = [], sim.clock.t
+        while sim.clock.t < t0 + 9.0:
+            sim.clock.advance(gap)
+            hub.step('udp', udp=(XA if int(sim.clock.t * 10) % 2 else P1A, HUB, noise))
+            got += [d.data for d in sim.net if d.dst == P2A]
+            sim.net.clear()
+        ck.count('never_quiet.runs')
+        ck.nontrivial(('never-quiet', gap))
+        if died:
+            ck.violation(f'loop-terminated:{type(died[0].exc).__name__}:never-quiet-network', {'exc': repr(died[0].exc)[:160]}, sim.case)
+        elif len(got) < 2 or any(g_ != first[0] for g_ in got):
+            ck.violation('timer-driven-service-dead:no-retransmission-while-every-loop-turn-is-woken-by-a-datagram', {'retransmissions_in_9_s': len(got), 'hub': [(x.state.name, str(x.peer_addr)) for x in hub.ctl.ike_sas]}, sim.case)
+        else:
+            ck.count('never_quiet.retransmitted')
     # ---- PERSISTENT kernel refusals: from the start of a history every request of one type fails (a one-shot fault heals on the next iteration, this does not).
     # Afterwards the hub must still give TIMER-driven service to its other peer: an unanswered request of its own is retransmitted, DPD probes start.
     pers = [(typ, fl) for typ in ('DELSA', 'NEWSA') for fl in (('errno', -1), ('errno', -22), ('errno', -105), ('errno', -3), ('oserror', 105))]
@@ -562,6 +638,9 @@ def verdict(ck):
     ck.floor('kernel oddities', sum(v for k, v in c.items() if k.startswith('hostile.kernel')), 100)
     ck.floor('sendto faults', c['faults.sendto'], 20)
     ck.floor('netlink faults', c['faults.netlink'], 10)
+    ck.floor('half-open IKE_SAs left by those floods', c['flood_between.half_open_after_the_flood'], 60)
+    ck.floor('handshakes that completed although a flood of IKE_SA_INIT requests arrived in between', c['flood_between.completed'], 5)
+    ck.floor('never-quiet-network runs in which the lost request was retransmitted', c['never_quiet.retransmitted'], 3)
     ck.floor('authentic responses with SPIs of an impossible size after which the timers still ran', c['authentic_response.timer_service_alive'], 10)
     ck.floor('failures to open the netlink socket of a request', c['faults.netlink-socket'], 10)
     ck.floor('events that raise while a retransmission is due, after which the retransmission came', c['raising_event_while_timer_due.retransmitted'], 8)
